@@ -185,10 +185,13 @@ fn suspect(evs: &[Value], supsent: Option<i64>, kids: Option<i64>) -> bool {
     })
 }
 
-fn reset_meta(family: &str, named: bool, inpg: bool, sup: bool, kids: usize, racer: bool, late: bool) -> Value {
+fn reset_meta(family: &str, named: bool, inpg: bool, sup: bool, kids: usize, racer: bool, late: bool, owed: bool) -> Value {
     // racer / late: whether this run has the extra set_status callers at all (the specification must not invent them)
     json!({"family": family, "named": i64::from(named), "inpg": i64::from(inpg), "hsup": i64::from(sup), "kids": kids,
-           "racer": i64::from(racer), "late": i64::from(late)})
+           "racer": i64::from(racer), "late": i64::from(late),
+           // owed: whether the exit of this run owes the supervisor a terminal event (finish(evt), or a guard that was armed
+           // by mark_running - every actor whose start succeeded)
+           "owed": i64::from(owed)})
 }
 
 pub fn one_run_h(shape: &Shape, ex: &mut Explorer) -> (Vec<Value>, Value, bool) {
@@ -350,7 +353,7 @@ pub fn one_run_h(shape: &Shape, ex: &mut Explorer) -> (Vec<Value>, Value, bool) 
     ractor::pg::leave(group.clone(), vec![cell.clone()]);
     ractor::pg::demonitor(format!("{group}-m"), cell.get_id());
     let bad = run.overrun || !run.stuck.is_empty();
-    let mut meta = reset_meta("exitwait-h", shape.named, shape.inpg, shape.sup, shape.kids, shape.racer, shape.late != 0);
+    let mut meta = reset_meta("exitwait-h", shape.named, shape.inpg, shape.sup, shape.kids, shape.racer, shape.late != 0, shape.evt);
     let m = meta.as_object_mut().unwrap();
     m.insert("shape".into(), json!(format!("{shape:?}")));
     m.insert("sched".into(), json!(ex.sched));
@@ -419,6 +422,8 @@ pub enum WOp {
 
 #[derive(Clone, Debug)]
 pub struct TScenario {
+    /// what post_start does (the actor is still Starting meanwhile)
+    pub post: Vec<AOp>,
     pub kid: bool,
     pub handle: Vec<Vec<AOp>>,
     pub pstop: Vec<AOp>,
@@ -467,6 +472,9 @@ impl Actor for EA {
     type Arguments = ();
     async fn pre_start(&self, _: ActorRef<EMsg>, _: ()) -> Result<(), ActorProcessingErr> {
         Ok(())
+    }
+    async fn post_start(&self, myself: ActorRef<EMsg>, _: &mut ()) -> Result<(), ActorProcessingErr> {
+        self.run(&self.sc.post, &myself).await
     }
     async fn handle(&self, myself: ActorRef<EMsg>, m: EMsg, _: &mut ()) -> Result<(), ActorProcessingErr> {
         if self.sc.handle.is_empty() {
@@ -734,7 +742,7 @@ pub fn one_run_t(sc: &TScenario, ex: &mut Explorer) -> (Vec<Value>, Value, bool)
     end.insert("ncleanup".into(), json!(ncleanup));
     evs.push(Value::Object(end));
     let bad = !run.quiescent || g.done.iter().any(|d| !d);
-    let mut meta = reset_meta("exitwait-t", true, true, true, usize::from(sc.kid), false, false);
+    let mut meta = reset_meta("exitwait-t", true, true, true, usize::from(sc.kid), false, false, true);
     let m = meta.as_object_mut().unwrap();
     m.insert("scenario".into(), json!(format!("{sc:?}")));
     m.insert("sched".into(), json!(ex.sched));
@@ -750,6 +758,7 @@ pub fn micro_t() -> Vec<TScenario> {
     vec![
         // every waiting API at once against a graceful stop with a yielding post_stop
         TScenario {
+            post: vec![],
             kid: true,
             handle: vec![vec![AOp::Tick]],
             pstop: y(),
@@ -757,6 +766,7 @@ pub fn micro_t() -> Vec<TScenario> {
         },
         // kill_and_wait racing a drain_and_wait, message in flight
         TScenario {
+            post: vec![],
             kid: false,
             handle: vec![y()],
             pstop: vec![AOp::Yield],
@@ -764,13 +774,24 @@ pub fn micro_t() -> Vec<TScenario> {
         },
         // a wait that times out while the actor is alive, repeated after a later stop
         TScenario {
+            post: vec![],
             kid: true,
             handle: vec![],
             pstop: vec![AOp::Sleep(30)],
             clients: vec![vec![WOp::Wait(Some(20)), WOp::Wait(None)], vec![WOp::Sleep(50), WOp::Stop], vec![WOp::Sleep(60), WOp::Wait(Some(10)), WOp::Wait(Some(100))]],
         },
+        // the task is cancelled while the actor is still inside post_start (status Starting): every waiter is released
+        // and the supervisor is told
+        TScenario {
+            post: vec![AOp::Tick, AOp::Sleep(30), AOp::Tick],
+            kid: true,
+            handle: vec![],
+            pstop: vec![],
+            clients: vec![vec![WOp::Sleep(5), WOp::Abort, WOp::Wait(None)], vec![WOp::Wait(None)], vec![WOp::Sleep(10), WOp::Join]],
+        },
         // handler failure and an aborted task as exit causes
         TScenario {
+            post: vec![],
             kid: false,
             handle: vec![vec![AOp::Yield, AOp::Panic]],
             pstop: vec![],
@@ -840,7 +861,8 @@ pub fn rand_t(rng: &mut Rng) -> TScenario {
         // nobody is sure to reach an exit request (it may sit behind an unbounded wait): add one
         clients.push(vec![WOp::Sleep(25 + 25 * rng.below(8) as u64), [WOp::Stop, WOp::Kill, WOp::Drain, WOp::Abort][rng.below(4)].clone()]);
     }
-    TScenario { kid: rng.chance(1, 2), handle: (0..2).map(|_| aops(rng, true)).collect(), pstop: aops(rng, false), clients }
+    let post = if rng.chance(1, 4) { vec![[AOp::Yield, AOp::Sleep(10), AOp::Sleep(30)][rng.below(3)].clone()] } else { vec![] };
+    TScenario { post, kid: rng.chance(1, 2), handle: (0..2).map(|_| aops(rng, true)).collect(), pstop: aops(rng, false), clients }
 }
 
 // ------------------------------------------------------------------------------------------------
